@@ -72,6 +72,9 @@ def _extra():
         add("logical-ops", "unsigned char a, b, r;", "r = 0; if (a && b) r = 1;", {"init": {"a": a, "b": 1}, "expect": {"r": int(a != 0)}}, "a=%d" % a)
         add("logical-ops", "unsigned char a, b, r;", "r = 0; if (a || b) r = 1;", {"init": {"a": a, "b": 0}, "expect": {"r": int(a != 0)}}, "a=%d" % a)
         add("logical-ops", "unsigned char a, r;", "r = 0; if (!a) r = 1;", {"init": {"a": a}, "expect": {"r": int(a == 0)}}, "a=%d" % a)
+        add("if-else-logical", "unsigned char a, b, r;", "r = 0; if (a == 0 && b == 0) r = 1; else { if (b == 0) r = 2; else r = 3; }", {"init": {"a": a, "b": 0}, "expect": {"r": 1 if a == 0 else 2}}, "a=%d b=0" % a)
+        add("if-else-logical", "unsigned char a, b, r;", "r = 0; if (a == 0 && b == 0) r = 1; else { if (b == 0) r = 2; else r = 3; }", {"init": {"a": a, "b": 7}, "expect": {"r": 3}}, "a=%d b=7" % a)
+        add("if-else-logical", "unsigned char a, b, r;", "r = 0; if (a == 0 || b == 0) r = 1; else { if (a == 1) r = 2; else r = 3; }", {"init": {"a": a, "b": 7}, "expect": {"r": 1 if a == 0 else (2 if a == 1 else 3)}}, "a=%d b=7" % a)
         add("ternary", "unsigned char a, r;", "r = (a > 1) ? 7 : 8;", {"init": {"a": a}, "expect": {"r": 7 if a > 1 else 8}}, "a=%d" % a)
     # widening of signed / unsigned 8-bit values to 16 bits, scalar, constant index, register index
     for v in (1, 0x7f, 0x80, 0xfe):
